@@ -137,6 +137,9 @@ func jobStartupCheck(res *Result) {
 		return n
 	}
 	judge := func(when string) {
+		// the reactors hold this lock while a worker's API call is in progress
+		im.api.big.Lock()
+		defer im.api.big.Unlock()
 		rj, p := im.api.getJob(jobName), im.api.getPod(p0)
 		if rj == nil || p == nil || p.DeletionTimestamp != nil || deletes() > 0 {
 			return
@@ -159,7 +162,10 @@ func jobStartupCheck(res *Result) {
 	time.Sleep(300 * time.Millisecond)
 	judge("before the Pod informer has synced")
 	// the Pod list arrives
-	for _, p := range im.api.listPods() {
+	im.api.big.Lock()
+	pods := im.api.listPods()
+	im.api.big.Unlock()
+	for _, p := range pods {
 		im.sc.informers.Pods.Set(p.DeepCopy())
 	}
 	im.sc.informers.Pods.SetSynced(true)
